@@ -36,7 +36,7 @@ type c08Suffix struct {
 type c08Case struct {
 	Prefix []c08Item `json:"prefix"`
 	Suffix c08Suffix `json:"suffix"`
-	Late   string    `json:"late,omitempty"` // "" | idle | init | invoke : where the parked exit notification of the old runtime is released
+	Late   string    `json:"late,omitempty"` // "" | idle | init | invoke | delay.idle | delay.invoke | delay.initcrash : where the parked exit notification of the old runtime is released
 }
 
 const c08T = 300
@@ -164,6 +164,9 @@ func (c *c08Case) scenario(withPrefix bool) *Scenario {
 		if last && c.Late != "" {
 			// the last prefix item is a timeout whose runtime-exit handling gets parked (late-notification family)
 			rt = Script{Steps: []Step{{Op: "rt.next"}, {Op: "stall"}}}
+			if c.Late == "delay.initcrash" {
+				rt = Script{Steps: []Step{{Op: "stall"}}} // the timeout expires while the first initialisation is still running
+			}
 			needReset = false
 			drv = nil
 		}
@@ -189,13 +192,18 @@ func (c *c08Case) scenario(withPrefix bool) *Scenario {
 		// the supervisor itself is slow: the exit notification of the killed runtime is delivered 2.3 s after its death,
 		// i.e. after the reset gave up waiting (2 s grace) and completed
 		sc.Config.ExitEventDelayMs = map[string]int{"runtime": 2300}
+		if c.Late == "delay.initcrash" {
+			// only the runtime of the first generation is slow to be reported: the suffix's runtime exits too, and that exit
+			// must be seen promptly in both runs
+			sc.Config.ExitEventDelayMs = map[string]int{"proc:runtime-1": 2300}
+		}
 	}
 	// ---- suffix
 	sc.Driver = append(sc.Driver, Step{Op: "quiet", Ms: 1, Tag: "suffix.begin"})
 	if withPrefix && c.Late == "idle" {
 		sc.Driver = append(sc.Driver, Step{Op: "hook.release", Point: "watch.exitRecorded"}, Step{Op: "sleep", Ms: 30})
 	}
-	if withPrefix && c.Late == "delay.idle" {
+	if withPrefix && (c.Late == "delay.idle" || c.Late == "delay.initcrash") {
 		sc.Driver = append(sc.Driver, Step{Op: "sleep", Ms: 600}) // the late notification arrives while nothing is in flight
 	}
 	sx := c.Suffix
@@ -588,8 +596,11 @@ func c08Gen(t *rapid.T) c08Case {
 	c.Suffix.Stale = rapid.SampledFrom([]string{"", "", "", "next", "exiterror", "initerror"}).Draw(t, "stale")
 	if rapid.IntRange(0, 7).Draw(t, "lateFamily") == 0 {
 		c.Suffix.Stale = ""
-		c.Late = rapid.SampledFrom([]string{"idle", "init", "invoke", "delay.idle", "delay.invoke"}).Draw(t, "late")
+		c.Late = rapid.SampledFrom([]string{"idle", "init", "invoke", "delay.idle", "delay.invoke", "delay.initcrash"}).Draw(t, "late")
 		c.Suffix.Kind = "healthy"
+		if c.Late == "delay.initcrash" {
+			c.Suffix.Kind = "crash" // the fault of the new generation must be answered with its own error
+		}
 		// the parked notification belongs to the runtime of the last prefix generation, which must be alone in it
 		c.Prefix[len(c.Prefix)-1] = c08Item{Kind: "timeout.resp"}
 		for k := 0; k < len(c.Prefix)-1; k++ {
@@ -623,6 +634,7 @@ func c08Fixed() []c08Case {
 		{Prefix: []c08Item{{Kind: "timeout.resp"}}, Suffix: c08Suffix{Kind: "healthy"}, Late: "init"},
 		{Prefix: []c08Item{{Kind: "timeout.resp"}}, Suffix: c08Suffix{Kind: "healthy"}, Late: "invoke"},
 		{Prefix: []c08Item{{Kind: "timeout.resp"}}, Suffix: c08Suffix{Kind: "healthy"}, Late: "delay.idle"},
+		{Prefix: []c08Item{{Kind: "timeout.init"}}, Suffix: c08Suffix{Kind: "crash"}, Late: "delay.initcrash"},
 		{Prefix: []c08Item{{Kind: "timeout.resp"}}, Suffix: c08Suffix{Kind: "healthy", Exts: []string{"I"}}, Late: "delay.invoke"},
 	}
 }
